@@ -5,7 +5,7 @@ tree snapshots with content AND (mode, mtime_ns, size) before/after, H-rep; a sa
 script under strace (H-sys), which also sees semgrep's child processes. Oracle: no mutation event under the target, snapshots equal,
 normalised dry report == normalised real report of the same project."""
 import base64, collections, copy, hashlib, json, os, random, sys
-from vf import corpus, blackbox as BB
+from vf import corpus, gen, blackbox as BB
 from vf.checks import c03
 from vf.runner import run_check, Violation
 b64 = lambda b: base64.b64encode(b).decode()
@@ -20,7 +20,8 @@ def plan(tier, seed):
     per = 2 if tier == "quick" else 8
     for cid, rs in sorted(by.items()):
         for r in rnd.sample(rs, min(per, len(rs))):
-            files = {"code.py": b64(r["input"].encode())}
+            lay = ("lf", "bom", "crlf", "nonl", "lf", "bom")[i % 6]      # a dry run must predict the real run for every source layout (BOM files: line 1 of the diff)
+            files = {"code.py": b64(gen.layout(r["input"], lay))}
             m = mk[i % len(mk)]; i += 1
             files.update({k: b64(v) for k, v in c03.MANIFESTS[m].items()})
             extra = rnd.choice(([], ["--verbose"], ["--max-workers", "4"], ["--path-include", "*.py"]))
